@@ -9,6 +9,8 @@ Streams
   C09.seq       ONE live report saved, modified in place (finished and already saved tests included) and saved again, several times,
                 with either backend, any options, the same or another path, the same or a fresh backend instance; every load must
                 give the report as it was at the last save to that path (model `Store.run`)
+  C09.dir       a report saved INTO a directory (any name, sibling directories holding older reports, other content; $TMPDIR and the
+                report directory on the same or on another file system) and loaded back THROUGH the directory (model `DirStore`)
   C09.etnorm    the XML text layer against `Serial.etNorm`
   C09.jsontext  `json.dumps` against `JsonFile.jsonEscape`, the codecs against `JsonFile.encodable`
   C09.time      the ISO-8601 millisecond text layer
@@ -24,16 +26,18 @@ import common as C
 from gen import reports as R
 
 PROPERTY = "C09"
-LEAN_MODULES = ["LccModel.Props.C09"]
-PROPS_FILES = ["LccModel/Props/C09.lean"]
-NAMESPACES = {"LccModel/Props/C09.lean": "LccModel.C09"}
+LEAN_MODULES = ["LccModel.Props.C09", "LccModel.Props.C09Dir"]
+PROPS_FILES = ["LccModel/Props/C09.lean", "LccModel/Props/C09Dir.lean"]
+NAMESPACES = {"LccModel/Props/C09.lean": "LccModel.C09", "LccModel/Props/C09Dir.lean": "LccModel.C09"}
 DRIVER = "drivers/C09.lean"
 TRUSTED_BASE = [
     "Lean 4.33.0 kernel; axioms of the property theorems ⊆ {propext, Classical.choice, Quot.sound}",
     "hand-written model LccModel/Model/Serial.lean of reporting/backends/json_.py and xml.py (serialize/unserialize pairs, field by field) "
     "and the accessors of report.py in LccModel/Model/Writer.lean (get_tests/get_suites: stable sort by rank); Model/JsonFile.lean "
     "(JsonBackend options, JavaScript prefix written / stripped at offset 0, ensure_ascii escaping, codec encodability); Model/Store.lean "
-    "(a live report saved, modified and saved again: files hold serialised values, loads read them back)",
+    "(a live report saved, modified and saved again: files hold serialised values, loads read them back); Model/DirStore.lean (report "
+    "directories: lookup by name equality, entries in os.listdir order, first loadable entry, atomic save = temporary file beside the target + "
+    "os.replace that fails across devices)",
     "text layers are parameters of the model, each validated by its own stream and not proved: json.dumps/json.loads = identity on JSON "
     "values (C09.json), ET.tostring/ET.parse = etNorm (C09.etnorm), float→ms rounding and ISO-8601 text (C09.time)",
     "correspondence harness harness/props/c09.py + harness/gen/reports.py (generator, builder to real objects, canonical form)",
@@ -58,6 +62,7 @@ RULE = ("a generated report tree saved and loaded with the real backend (JSON: e
         "pretty_formatting, backend.save_report or report.save(), backend.load_report or the format-detecting load_report); non-trivial = "
         "at least 2 results and (a string from a non-plain class or an unfinished item); C09.seq: non-trivial = a successful save, then a "
         "modification of the live objects, then another successful save; C09.jsontext: a string json.dumps has to escape; "
+        "C09.dir: non-trivial = a successful save into a directory with siblings, or with a special name, or with $TMPDIR moved; "
         "distinct = hash of the case")
 EXPLANATION = ("Round-trip theorems for every report (JSON: unconditional on representable reports; XML: under the decidable guard "
                "xmlSafe, with refutation theorems for each D8 class) proved in Lean; the models are tied to json_.py / xml.py by saving "
@@ -65,7 +70,8 @@ EXPLANATION = ("Round-trip theorems for every report (JSON: unconditional on rep
                "the model's prediction; etNorm, the JSON escaping / encodability and the time text layer have their own differential "
                "streams; the JSON file layer (options, prefix) is a theorem over every option combination and every text, its hypotheses "
                "checked on every real file; sequences save / modify / save on the same live objects are a simulation theorem "
-               "(Store.run = Store.specRun) and the stream C09.seq.")
+               "(Store.run = Store.specRun) and the stream C09.seq; the directory form of load_report and the atomic save (directory names, "
+               "siblings, other content, place of the temporary directory) are theorems over Model/DirStore.lean and the stream C09.dir.")
 
 # Times are taken below 2**33 s (year 2242): up to there the spacing of doubles is below 1 µs, so `utcfromtimestamp`'s rounding to
 # microseconds recovers the exact millisecond before `isoformat(timespec="milliseconds")` TRUNCATES; beyond, a millisecond can be
@@ -1294,6 +1300,316 @@ class JsonText(C.Stream):
         return f
 
 
+# ---- the directory form: save INTO a report directory, load back THROUGH the directory -----------
+
+# names a report directory may legitimately have (`--report-dir`, a copy made by a file manager, a CI job name …); the universe of
+# project-directory names of C19 plus names whose metacharacters form complete glob patterns
+def _dir_names():
+    from props.c19 import DIR_NAMES
+    return sorted(set(DIR_NAMES) | {"report", "report[1]", "report-*", "nightly [x86] run", "re[a-z]ort", "[!r]eport", "r?port", "***", "?",
+                                    "[", "]", "a[", "[]]", "[[]", "report[", "rep\\*", "{report}", "report-[0-9]", "run #12 (retry)"})
+
+
+def pattern_instances(rng, name, n=3):
+    """names of SIBLING directories: some that the name, read as a glob pattern, would match; some unrelated"""
+    import fnmatch
+    import re as _re
+    cands = set()
+    for _ in range(12):
+        c = _re.sub(r"\[!?([^\]]+)\]", lambda m: rng.choice([ch for ch in m.group(1) if ch != "-"] or ["x"]) if not m.group(0).startswith("[!")
+                    else rng.choice("xyz"), name)
+        c = "".join(rng.choice(["", "old", "-2", "x"]) if ch == "*" else rng.choice("xs1e") if ch == "?" else ch for ch in c)
+        cands.add(c)
+    cands.update(["report1", "report-old", "nightly 8 run", "whats", "reaort", "report-7"])
+    hits = sorted(c for c in cands if c and c != name and "/" not in c and c not in (".", "..") and fnmatch.fnmatchcase(c, name))
+    out = rng.sample(hits, min(len(hits), n))
+    out += rng.sample(["other", name + "2", "x" + name, "report", "reports"], rng.choice([0, 1, 2]))
+    return sorted({c for c in out if c != name})
+
+
+FOREIGN_KIND = "hostile"     # -> "other" once fixes/R5C-foreign-file-in-report-dir-crashes-load.diff is in /repo (the only line to change)
+DIR_EXTRAS = {          # other legitimate content of a report directory; none of it is a report
+    "attachments": "subdir", "report.html": "other", "notes.txt": "other", ".lock": "other", "report.js.4242.tmp": "other",
+    "empty": "other", "screenshots": "subdir",
+    # files on which a backend raises something else than ReportLoadingError (open finding
+    # C09/roundtrip/directory-load-crashes-on-foreign-file; after fixes/R5C-foreign-file-in-report-dir-crashes-load.diff: kind "other")
+    "run.pid": FOREIGN_KIND, "core": FOREIGN_KIND,
+}
+HOSTILE_EXTRAS = ["core", "run.pid"]
+BENIGN_EXTRAS = sorted(k for k in DIR_EXTRAS if k not in HOSTILE_EXTRAS)
+_EXTRA_TEXT = {"report.html": "<html><body><script src='report.js'></script></body></html>\n", "notes.txt": "see ticket 1234\n", ".lock": "pid 4242\n",
+               "report.js.4242.tmp": 'var reporting_data = {"title": "cut in the mid', "empty": "",
+               "run.pid": "4242\n",                    # a pid / counter file: its text is a JSON document (a number)
+               "core": b"\x7fELF\xff\xfe\x00\x80"}     # not UTF-8 text
+
+
+def other_filesystem(base):
+    """a writable directory on ANOTHER file system than `base` (compares st_dev), or (None, reason)"""
+    dev = os.stat(base).st_dev
+    seen = []
+    for cand in ("/dev/shm", "/tmp", "/var/tmp", "/run", "/run/user/%d" % os.getuid(), os.path.expanduser("~")):
+        try:
+            st = os.stat(cand)
+        except OSError:
+            continue
+        if not os.access(cand, os.W_OK | os.X_OK):
+            continue
+        seen.append(cand)
+        if st.st_dev != dev:
+            return cand, None
+    return None, "every writable candidate (%s) is on the device of %s" % (", ".join(seen), base)
+
+
+class DirStream(_SaveLoad):
+    """a report saved into a report DIRECTORY of any name, beside sibling directories holding OLDER reports (their names chosen among
+    those the directory's name would match if it were read as a pattern), the directory holding other legitimate content; the system
+    temporary directory ($TMPDIR) on the same or on another file system than the report directory; loaded back through
+    `load_report(<directory>)` / `load_reports_from_dir`"""
+    name = "C09.dir"
+    key = "dir"
+    quick_cases = 220
+    thorough_cases = 3000
+    quick_seconds = 12
+    thorough_seconds = 150
+    chunk = 40
+    corpus = []     # filled below
+
+    def setup(self, ctx):
+        super().setup(ctx)
+        self.otherfs, self.otherfs_reason = other_filesystem(self.dir)
+        self.dir2 = tempfile.mkdtemp(prefix="lccverif-c09-", dir=self.otherfs) if self.otherfs else None
+
+    def teardown(self, ctx):
+        super().teardown(ctx)
+        if getattr(self, "dir2", None):
+            shutil.rmtree(self.dir2, ignore_errors=True)
+
+    def gen(self, rng, i):
+        mode = rng.choice(["safe", "plain", "plain"])
+        d = R.gen_report(rng, mode, max_depth=2, odd=False, unfinished=0.2)
+        older = R.gen_report(rng, "plain", max_depth=1, odd=False, unfinished=0)
+        older["title"] = "OLDER REPORT of the neighbour directory"
+        names = _dir_names()
+        dirname = rng.choice(names) if rng.random() < 0.8 else "report"
+        opts, _ = gen_json_opts(rng)
+        return {"report": d, "older": older, "dirname": dirname, "siblings": pattern_instances(rng, dirname),
+                "extras": sorted(rng.sample(BENIGN_EXTRAS, rng.choice([0, 0, 1, 2, 4])) + (rng.sample(HOSTILE_EXTRAS, 1) if rng.random() < 0.06 else [])),
+                "backend": rng.choice(["json", "json", "xml"]), "opts": opts, "how": rng.choice(["backend", "backend", "report.save"]),
+                "via": rng.choice(["load_report", "load_report", "load_report/", "load_reports_from_dir"]),
+                "tmp": rng.choice(["default", "other-fs", "other-fs", "elsewhere"]), "place": rng.choice(["default", "default", "other-fs"])}
+
+    def impl(self, case):
+        from lemoncheesecake.reporting import XmlBackend, load_report
+        from lemoncheesecake.reporting.loader import load_reports_from_dir
+        from lemoncheesecake.exceptions import ReportLoadingError
+        if not getattr(self, "dir", None):
+            self.setup(None)
+        have2 = self.dir2 is not None
+        base = self.dir2 if (case.get("place") == "other-fs" and have2) else self.dir
+        top = tempfile.mkdtemp(prefix="top-", dir=base)
+        tmp_kind = case.get("tmp", "default")
+        tmpd = None
+        if tmp_kind == "other-fs" and have2:
+            tmpd = tempfile.mkdtemp(prefix="tmpdir-", dir=self.dir if base == self.dir2 else self.dir2)
+        elif tmp_kind != "default":
+            tmpd = tempfile.mkdtemp(prefix="tmpdir-", dir=base)
+        be = json_backend(case.get("opts")) if case["backend"] == "json" else XmlBackend()
+        fname = be.get_report_filename()
+        out = {"fname": fname, "second_fs": "available" if have2 else "unavailable: " + str(self.otherfs_reason)}
+        try:
+            for sib in case.get("siblings", []):
+                os.mkdir(os.path.join(top, sib))
+                be.save_report(os.path.join(top, sib, fname), R.build_report(R.strip_private(case["older"])))
+            target = os.path.join(top, case["dirname"])
+            os.mkdir(target)
+            for x in case.get("extras", []):
+                if DIR_EXTRAS[x] == "subdir":
+                    os.mkdir(os.path.join(target, x))
+                else:
+                    with open(os.path.join(target, x), "wb" if isinstance(_EXTRA_TEXT[x], bytes) else "w") as fh:
+                        fh.write(_EXTRA_TEXT[x])
+            out["before"] = sorted(os.listdir(target))
+            out["dev"] = {"report": os.stat(target).st_dev, "tmp": os.stat(tmpd).st_dev if tmpd else os.stat(tempfile.gettempdir()).st_dev}
+            rep = R.build_report(R.strip_private(case["report"]))
+            path = os.path.join(target, fname)
+            old_env, old_td = os.environ.get("TMPDIR"), tempfile.tempdir
+            if tmpd:
+                os.environ["TMPDIR"] = tmpd
+                tempfile.tempdir = None
+            try:
+                if case.get("how") == "report.save":
+                    rep.bind(be, path)
+                    rep.save()
+                else:
+                    be.save_report(path, rep)
+                out["save"] = "saved"
+            except (TypeError, UnicodeEncodeError, ValueError, OSError) as e:
+                import errno
+                out["save"] = type(e).__name__ + ("-" + errno.errorcode.get(e.errno, str(e.errno)) if isinstance(e, OSError) and e.errno else "")
+            finally:
+                if tmpd:
+                    if old_env is None:
+                        os.environ.pop("TMPDIR", None)
+                    else:
+                        os.environ["TMPDIR"] = old_env
+                    tempfile.tempdir = old_td
+            out["after"] = sorted(os.listdir(target))
+            out["listing"] = os.listdir(target)
+            out["tmp_left"] = sorted(os.listdir(tmpd)) if tmpd else []
+            out["siblings_after"] = sorted(x for x in os.listdir(top) if x != case["dirname"] and not x.startswith("tmpdir-"))
+            via = case.get("via", "load_report")
+            try:
+                if via == "load_reports_from_dir":
+                    reps = list(load_reports_from_dir(target))
+                    out["count"] = len(reps)
+                    loaded = reps[0] if reps else None
+                else:
+                    loaded = load_report(target + ("/" if via.endswith("/") else ""))
+                if loaded is None:
+                    out["load"] = {"outcome": "no-report"}
+                else:
+                    out["load"] = {"outcome": "ok", "report": R.canon_report(loaded), "nf": R.nf_report(loaded)}
+                    out["load"]["none_text"] = none_text_positions(out["load"]["report"])
+            except ReportLoadingError as e:
+                out["load"] = {"outcome": "no-report", "message": str(e)[:60]}
+            except (AttributeError, UnicodeDecodeError, TypeError, KeyError, ValueError) as e:
+                out["load"] = {"outcome": "crash", "class": type(e).__name__}
+        finally:
+            shutil.rmtree(top, ignore_errors=True)
+            if tmpd:
+                shutil.rmtree(tmpd, ignore_errors=True)
+        out["outcome"] = out["load"]["outcome"] if out.get("save") == "saved" else "save-failed"
+        return {"dir": out}
+
+    def oracle(self, case, obs):
+        o = obs["dir"]
+        fails = []
+        where = "directory %r (siblings %s, $TMPDIR %s, report dir on %s fs)" % (case["dirname"], case.get("siblings", []), case.get("tmp"), case.get("place"))
+        if o["save"] != "saved":
+            legit = o["save"] in ("TypeError", "UnicodeEncodeError")      # the D8 classes of xml_failures
+            if not legit:
+                fails.append(C.Failure("C09/save-fails/" + o["save"], "saving the report into %s raised %s" % (where, o["save"])))
+        stray = [x for x in o["after"] if x not in o["before"] and x != o["fname"]]
+        if stray:
+            fails.append(C.Failure("C09/save/stray-file-in-report-dir", "after the save %s holds %s besides %s" % (where, stray, o["fname"])))
+        gone = [x for x in o["before"] if x not in o["after"]]
+        if gone:
+            fails.append(C.Failure("C09/save/entry-removed-from-report-dir", "the save removed %s from %s" % (gone, where)))
+        if o["tmp_left"]:
+            fails.append(C.Failure("C09/save/file-left-in-temp-dir", "after the save $TMPDIR holds %s" % o["tmp_left"]))
+        if o["siblings_after"] != sorted(case.get("siblings", [])):
+            fails.append(C.Failure("C09/save/sibling-directories-changed", "siblings %s -> %s" % (case.get("siblings"), o["siblings_after"])))
+        if o["save"] != "saved":
+            return fails
+        ld = o["load"]
+        if ld["outcome"] == "crash":
+            hostile = [x for x in case.get("extras", []) if DIR_EXTRAS[x] == "hostile"]
+            fails.append(C.Failure("C09/roundtrip/directory-load-crashes-on-foreign-file" if hostile else "C09/roundtrip/directory-load-raises-" + ld["class"],
+                                   "%s: %s raised %s although %s was saved there intact (other entries: %s)"
+                                   % (where, case.get("via"), ld["class"], o["fname"], case.get("extras"))))
+            return fails
+        if ld["outcome"] == "no-report":
+            fails.append(C.Failure("C09/roundtrip/report-not-found-in-its-directory",
+                                   "%s: the report saved as %s is not found by %s: %s" % (where, o["fname"], case.get("via"), ld.get("message"))))
+            return fails
+        exp = R.nf_of_desc(case["report"])
+        if ld["nf"] != exp and ld["nf"] == R.nf_of_desc(case["older"]):
+            fails.append(C.Failure("C09/roundtrip/loaded-foreign-report",
+                                   "%s: %s returned the OLDER report of a sibling directory (title %r) instead of the one just saved there"
+                                   % (where, case.get("via"), ld["nf"].get("title") if isinstance(ld["nf"], dict) else None)))
+            return fails
+        fails += xml_failures(case["report"], ld, "directory round trip") if case["backend"] == "xml" else json_failures(case["report"], ld, "directory round trip")
+        if o.get("count", 1) != 1:
+            fails.append(C.Failure("C09/roundtrip/directory-does-not-list-one-report", "%s lists %d reports, one was saved" % (where, o["count"])))
+        return fails
+
+    def request(self, case, obs):
+        o = obs["dir"]
+        def rep_entry(nm, desc, g):
+            return dict({"name": nm, "kind": case["backend"], "report": R.wire(merge_pairs_deep(R.strip_private(desc))), "g": g}, **case["opts"])
+        dev = o["dev"]["report"]
+        dirs = [{"name": sib, "dev": dev, "entries": [rep_entry(o["fname"], case["older"], 0)]} for sib in case.get("siblings", [])]
+        dirs.append({"name": case["dirname"], "dev": dev, "entries": [{"name": x, "kind": DIR_EXTRAS[x]} for x in o["before"]]})
+        g = 0
+        if o["save"] == "saved" and o["load"]["outcome"] == "ok":
+            g = o["load"]["report"]["saving"] or 0
+        # the real code creates its temporary file BESIDE the target, wherever $TMPDIR is
+        return {"op": "dir", "target": case["dirname"], "tmp": "beside", "dirs": dirs, "order": o["listing"],
+                "save": dict({"file": o["fname"], "fmt": case["backend"], "g": g, "report": R.wire(merge_pairs_deep(R.strip_private(case["report"])))},
+                             **case["opts"])}
+
+    def compare(self, case, obs, ans):
+        if "error" in ans:
+            return "model error: " + str(ans["error"])
+        o = obs["dir"]
+        real_save = "saved" if o["save"] == "saved" else "save-error" if o["save"] in ("TypeError", "UnicodeEncodeError") else o["save"]
+        if ans["save"] != real_save:
+            return "save: real %s, model %s" % (o["save"], ans["save"])
+        if sorted(ans["names"]) != o["after"]:
+            return "entries of the report directory after the save: real %s, model %s" % (o["after"], sorted(ans["names"]))
+        if real_save != "saved":
+            return None
+        m, ld = ans["load"], o["load"]
+        if case.get("via") == "load_reports_from_dir":
+            # the list form consumes the whole generator
+            if (ld["outcome"] == "crash") != (ans["count"] == "crashed"):
+                return "listing the directory: real %s, model count %s" % (ld["outcome"], ans["count"])
+            if ld["outcome"] == "crash":
+                return None
+        elif (ld["outcome"] == "crash") != (m["o"] == "crashed"):
+            return "real load: %s; model: %s" % (ld["outcome"], m["o"])
+        elif ld["outcome"] == "crash":
+            return None
+        if ld["outcome"] == "no-report":
+            return None if m["o"] == "no-report" else "real: no report found in the directory; model: %s" % m["o"]
+        if ld.get("none_text") and m["o"] != "loaded":
+            return None
+        if m["o"] != "loaded":
+            return "real load succeeded; model: %s" % m["o"]
+        if "count" in o and o["count"] != ans["count"]:
+            return "reports listed: real %d, model %d" % (o["count"], ans["count"])
+        if ld.get("none_text"):
+            return None
+        d = first_diff(ld["report"], R.unwire(m["report"]))
+        return None if d is None else "loaded report differs from the model's at %s: real %r model %r" % d
+
+    def nontrivial(self, case, obs):
+        return obs["dir"]["save"] == "saved" and (bool(case.get("siblings")) or case["dirname"] != "report" or case.get("tmp") != "default")
+
+    def features(self, case, obs):
+        import fnmatch
+        o = obs["dir"]
+        n = case["dirname"]
+        f = ["dirname:" + ("plain" if n == "report" else "glob-metachars" if any(c in n for c in "[]*?") else "other-special")]
+        if any(fnmatch.fnmatchcase(s, n) for s in case.get("siblings", [])):
+            f.append("sibling-matched-by-name-as-pattern")
+        f.append("siblings=%d" % len(case.get("siblings", [])))
+        f.append("extras=%d" % len(case.get("extras", [])))
+        f += ["extra:" + x for x in case.get("extras", [])]
+        f.append("backend:" + case["backend"])
+        f.append("via:" + case.get("via", ""))
+        f.append("how:" + case.get("how", ""))
+        f.append("second-filesystem:" + o["second_fs"])
+        f.append("tmpdir:%s/report-dir:%s" % (case.get("tmp"), case.get("place")))
+        f.append("tmpdir-device-%s-report-dir-device" % ("=" if o["dev"]["tmp"] == o["dev"]["report"] else "!="))
+        f.append("outcome:" + o["outcome"])
+        return f
+
+    def shrink(self, case):
+        sib = case.get("siblings", [])
+        for i in range(len(sib)):
+            yield dict(case, siblings=sib[:i] + sib[i + 1:])
+        if case.get("extras"):
+            yield dict(case, extras=[])
+        for k, v in (("via", "load_report"), ("how", "backend"), ("tmp", "default"), ("place", "default"), ("backend", "json")):
+            if case.get(k) != v:
+                yield dict(case, **{k: v})
+        for c in R.shrink_desc(case["report"]):
+            yield dict(case, report=c)
+        for c in R.shrink_desc(case["older"]):
+            yield dict(case, older=c)
+
+
 def _w(title="t", **kw):
     """minimal report description with one test holding one log"""
     log = {"k": "log", "level": "info", "msg": kw.get("msg", "m"), "t": R.T0 + 2}
@@ -1369,5 +1685,24 @@ SeqStream.corpus = [
 ]
 
 
+def _dircase(dirname, siblings, backend="json", via="load_report", tmp="default", place="default", extras=()):
+    older = _w(title="OLDER REPORT of the neighbour directory")["report"]
+    return {"report": _w(title="the report saved here")["report"], "older": older, "dirname": dirname, "siblings": list(siblings),
+            "extras": list(extras), "backend": backend, "opts": {"jc": True, "pretty": False}, "how": "backend", "via": via, "tmp": tmp, "place": place}
+
+
+DirStream.corpus = [
+    # the directory's name read as a pattern matches a sibling that holds an older report (seeded C09-12)
+    _dircase("report[1]", ["report1"]), _dircase("report-*", ["report-old"], backend="xml"),
+    _dircase("what?", ["whats"], via="load_reports_from_dir"), _dircase("nightly [x86] run", ["nightly 8 run"], via="load_report/"),
+    _dircase("[", []), _dircase("report", ["report1", "reports"], extras=["attachments", "report.html", "report.js.4242.tmp"]),
+    # $TMPDIR on another file system than the report directory, and the other way round (seeded C09-11)
+    _dircase("report", [], tmp="other-fs"), _dircase("report", [], backend="xml", tmp="other-fs"),
+    _dircase("report", [], tmp="other-fs", place="other-fs"), _dircase("report", [], tmp="elsewhere"),
+    # open finding: a pid file / a binary file beside the report makes the directory load raise
+    _dircase("report", [], via="load_reports_from_dir", extras=["run.pid"]), _dircase("report", [], via="load_reports_from_dir", extras=["core"], backend="xml"),
+]
+
+
 def streams(ctx):
-    return [JsonStream(), XmlStream(), SeqStream(), EtNorm(), JsonText(), TimeLayer()]
+    return [JsonStream(), XmlStream(), SeqStream(), DirStream(), EtNorm(), JsonText(), TimeLayer()]
